@@ -33,6 +33,8 @@ G = DECGRAMMAR
 
 
 def run(ctx, ss):
+    from .common import keyword_vocabulary
+    ctx.guard("C01.1", keyword_vocabulary, ss, "C01.1", ('decay', 'photos', 'cdecay', 'copydecay'), ())
     for r, f in (("C01.1", c01_1), ("C01.2", c01_2), ("C01.3", c01_3), ("C01.4", c01_4),
                  ("C01.5", c01_5), ("C01.6", c01_6), ("C01.7", c01_7), ("C01.8", c01_8)):
         ctx.guard(r, f, ss)
@@ -105,6 +107,11 @@ def c01_2(ctx, ss):
         ctx.violation("C01.2", f"{G}:LABEL:alphabet", w, f"LABEL no longer accepts the character(s) {miss}: witness label {miss[0]!r}", lab.n_states())
     else:
         ctx.holds("C01.2", f"{G}:LABEL:alphabet", w, f"LABEL alphabet ⊇ the {len(LABEL_CHARS)} listed characters", lab.n_states())
+    # no terminal of the statement language matches the empty string (Lark refuses to build a lexer with a zero-width terminal)
+    for tn in ("LABEL", "SIGNED_NUMBER", "_NEWLINE", "COMMENT"):
+        okz = not Rx(gf.term_regex(tn)).accepts("")
+        (ctx.holds if okz else ctx.violation)("C01.2", f"{G}:{tn}:non-empty", w, f"{tn} never matches the empty string" if okz
+                                              else f"{tn} matches the empty string: no parser can be built from the grammar", 1)
     # closure: every non-empty string over the listed alphabet is a LABEL
     cls = "[" + "".join(re.escape(c) for c in sorted(LABEL_CHARS)) + "]+"
     wit = includes(lab, Rx(cls))
